@@ -242,6 +242,11 @@ func TestStallIsolationAndGopAlignedDrops(t *testing.T) {
 				if !tr.WaitIdle(s, []media.CID{hcid}, bound) {
 					evid.Violation(t, "isolation-stuck", res, "healthy consumer stopped receiving while another consumer is parked (after packet %d): %s", i, tr.Describe(s, []media.CID{hcid}))
 				}
+				if !parked {
+					// the same pacing for the other recorder while it is not parked: on a loaded
+					// machine its goroutine may otherwise fall 1000 packets behind all by itself
+					tr.WaitIdle(s, []media.CID{scid}, bound)
+				}
 			}
 			if parked {
 				if q := media.VerifQueueLen(s, scid); q > res.MaxBack {
